@@ -292,6 +292,12 @@ def run_one(tape, tier, prop):
             if len(lines) >= 2:
                 c04_nontrivial += 1
             continue
+        if not ref.base_for_pt(h["pt"]):
+            # "one value from each chosen terminal group ... with each chosen capitalisation mask applied": the
+            # pre-terminal must name exactly the variables of one of the ruleset's base structures (mask included)
+            res.violate("C04", "preterminal_is_not_a_derivation_of_the_ruleset", {"pt": repr(h["pt"]),
+                                                                                  "base_structures": [b["text"] for b in ref.base][:6]})
+            break
         try:
             want = ref.expand(h["pt"])
         except (ValueError, IndexError, KeyError):
